@@ -29,6 +29,8 @@ use redis_sim::redis::SDS;
 use redis_sim::replication::lattice::ReplicaId;
 use redis_sim::replication::state::{ReplicatedValue, ReplicationDelta, ShardReplicaState};
 use redis_sim::replication::{ConsistencyLevel, ReplicationConfig};
+use redis_sim::streaming::integration::StreamingIntegration;
+use redis_sim::streaming::StreamingConfig;
 use redis_sim::streaming::{
     CheckpointInfo, CheckpointWriter, Compression, InMemoryObjectStore, InMemoryWalStore, Manifest, ManifestManager, ObjectStore, RecoveryManager,
     SegmentInfo, SegmentWriter, WalEntry, WalRotator, WalStore,
@@ -36,6 +38,7 @@ use redis_sim::streaming::{
 use serde_json::{json, Value};
 use std::collections::{BTreeMap, BTreeSet, HashMap};
 use std::panic::{catch_unwind, AssertUnwindSafe};
+use std::sync::Arc;
 use vharness::rv::*;
 use vharness::util::*;
 
@@ -58,6 +61,7 @@ const V_DROPPED: &str = "a persisted update is not contained in the recovered st
 const V_DAMAGE: &str = "recovery returned Ok although a listed object it must read is missing or torn";
 const V_FAIL: &str = "recovery failed on an intact layout";
 const V_NODE: &str = "node state after apply_recovered_state is not the fold of what was applied";
+const V_INTEG: &str = "recovery through StreamingIntegration::recover (the entry point the server uses) does not leave the node in the merge of checkpoint and listed segments";
 const V_WALRB: &str = "recover_all_entries does not return the appended entries";
 
 type KV = BTreeMap<String, ReplicatedValue>;
@@ -854,13 +858,164 @@ async fn apply_snapshot(node: &ReplicatedShardedState, ck: Option<HashMap<String
     (expect.clone(), false)
 }
 
+fn integ_config() -> StreamingConfig {
+    let mut c = StreamingConfig::test();
+    c.prefix = PREFIX.to_string();
+    c
+}
+/// recovery through the integration entry point (what server_persistent calls), then the node's
+/// snapshot - no fallback: whatever the node holds is returned
+async fn integ_recover(store: &InMemoryObjectStore, node: &ReplicatedShardedState) -> Result<KV, String> {
+    let integ = StreamingIntegration::with_store(Arc::new(store.clone()), integ_config(), 1);
+    match integ.recover(node).await {
+        Err(e) => Err(e.to_string()),
+        Ok(_) => {
+            tokio::task::yield_now().await;
+            let _ = node.snapshot_state().await;
+            tokio::task::yield_now().await;
+            Ok(node.snapshot_state().await.into_iter().collect())
+        }
+    }
+}
+
 fn bump(out: &mut Out, k: &str, n: u64) {
     *out.dist.entry(k.to_string()).or_insert(0) += n;
 }
 
+/// Batch-boundary layouts (oracle only, no Coq case: 4095 .. 8193 deltas): a manifest with an
+/// optional checkpoint and 1-3 segments holding exactly `n` deltas to replay, recovered through
+/// StreamingIntegration::recover into a real node; the node's snapshot must be the merge of
+/// everything persisted, and a second recovery must change nothing.
+async fn run_big(seed: u64, i: u64, n: usize, verbose: bool, out: &mut Out) {
+    let mut rng = case_rng(seed ^ 0x11C0_B16, i);
+    let nrep = 3usize;
+    let mut reps: Vec<ShardReplicaState> = (0..nrep).map(|r| ShardReplicaState::new(ReplicaId(r as u64 + 1), ConsistencyLevel::Eventual)).collect();
+    for (r, st) in reps.iter_mut().enumerate() {
+        st.lamport_clock.time = [0u64, 500, 1 << 30][r];
+    }
+    let nkeys = rng.gen_range(200..700usize);
+    let with_ck = rng.gen_bool(0.5);
+    let n_ck = if with_ck { rng.gen_range(1..300usize) } else { 0 };
+    let mut issue = |rng: &mut Rng, reps: &mut Vec<ShardReplicaState>| -> ReplicationDelta {
+        let k = rng.gen_range(0..nkeys);
+        let r = rng.gen_range(0..nrep);
+        if k % 5 == 0 {
+            let f = FIELDS[rng.gen_range(0..FIELDS.len())].to_string();
+            reps[r].record_hash_write(format!("h{}", k), vec![(f, SDS::new(VALS[rng.gen_range(0..VALS.len())].to_vec()))])
+        } else if rng.gen_bool(0.1) {
+            let key = format!("k{}", k);
+            match reps[r].record_delete(key.clone()) {
+                Some(d) => d,
+                None => reps[r].record_write(key, SDS::new(b"x".to_vec()), None),
+            }
+        } else {
+            reps[r].record_write(format!("k{}", k), SDS::new(VALS[rng.gen_range(0..VALS.len())].to_vec()), if rng.gen_bool(0.2) { Some(1000 * rng.gen_range(1..5u64)) } else { None })
+        }
+    };
+    let ck_deltas: Vec<ReplicationDelta> = (0..n_ck).map(|_| issue(&mut rng, &mut reps)).collect();
+    let deltas: Vec<ReplicationDelta> = (0..n).map(|_| issue(&mut rng, &mut reps)).collect();
+    let mut ck_state = KV::new();
+    for d in &ck_deltas {
+        merge_into(&mut ck_state, &d.key, &d.value);
+    }
+    // segments
+    let nseg = rng.gen_range(1..=3usize);
+    let mut cuts: Vec<usize> = (0..nseg - 1).map(|_| rng.gen_range(1..n)).collect();
+    cuts.sort();
+    cuts.dedup();
+    let mut bounds = vec![0usize];
+    bounds.extend(cuts);
+    bounds.push(n);
+    let last = 2u64;
+    let mut objects: BTreeMap<String, Vec<u8>> = BTreeMap::new();
+    let mut infos: Vec<SegmentInfo> = Vec::new();
+    for (j, w) in bounds.windows(2).enumerate() {
+        let ds = &deltas[w[0]..w[1]];
+        let mut sw = SegmentWriter::new(Compression::None);
+        for d in ds {
+            sw.write_delta(d).unwrap();
+        }
+        let data = sw.finish().unwrap();
+        let id = last + 1 + j as u64;
+        infos.push(SegmentInfo { id, key: seg_key(id), record_count: ds.len() as u32, size_bytes: data.len() as u64,
+            min_timestamp: ds.iter().map(|d| d.value.timestamp.time).min().unwrap_or(0), max_timestamp: ds.iter().map(|d| d.value.timestamp.time).max().unwrap_or(0) });
+        objects.insert(seg_key(id), data);
+    }
+    let ck_info = if with_ck {
+        let ts = 1_700_000_000_000u64 + i;
+        let key = format!("{}/checkpoints/chk-{:016}.chk", PREFIX, ts);
+        let data = CheckpointWriter::new(Compression::None).write(ck_state.iter().map(|(k, v)| (k.clone(), v.clone())).collect(), ts, last).unwrap();
+        objects.insert(key.clone(), data);
+        Some(CheckpointInfo { key, timestamp_ms: ts, key_count: ck_state.len() as u64, last_segment_id: last })
+    } else {
+        None
+    };
+    let manifest = Manifest { version: 7, replica_id: 1, next_segment_id: infos.iter().map(|s| s.id).max().unwrap_or(0) + 1, segments: infos, checkpoint: ck_info };
+    let store = build_store(&objects, Some(&manifest)).await;
+    // truth: everything persisted merged in another order (descending stamps)
+    let mut elems: Vec<(String, ReplicatedValue)> = ck_state.iter().map(|(k, v)| (k.clone(), v.clone())).collect();
+    elems.extend(deltas.iter().map(|d| (d.key.clone(), d.value.clone())));
+    elems.sort_by(|x, y| (y.1.timestamp.time, y.1.timestamp.replica_id.0).cmp(&(x.1.timestamp.time, x.1.timestamp.replica_id.0)));
+    let truth = fold_elems(&elems);
+    let node = ReplicatedShardedState::new(repl_config());
+    out.impl_checks += 2;
+    out.count(&format!("big:deltas-to-replay:{}", n));
+    out.count(if with_ck { "big:with-checkpoint" } else { "big:segments-only" });
+    let detail = |extra: Value| json!({"deltas_to_replay": n, "segments": manifest.segments.iter().map(|s| (s.id, s.record_count)).collect::<Vec<_>>(), "checkpoint_keys": if with_ck { Some(ck_state.len()) } else { None }, "keys": nkeys, "more": extra});
+    match integ_recover(&store, &node).await {
+        Err(e) => {
+            out.count(&format!("violation:{}", V_INTEG));
+            out.violation(i, V_INTEG, detail(json!({"error": e})));
+        }
+        Ok(got) => {
+            let dk = diff_keys(&got, &truth);
+            if verbose {
+                println!("big case {}: {} deltas to replay in {} segment(s), checkpoint {}: node holds {} keys, truth {} keys: {}", i, n, manifest.segments.len(), with_ck, got.len(), truth.len(), if dk.is_empty() { "ok".to_string() } else { format!("VIOLATED on {} keys", dk.len()) });
+            }
+            if !dk.is_empty() {
+                out.count(&format!("violation:{}", V_INTEG));
+                out.violation(i, V_INTEG, detail(json!({"differing_keys": dk.iter().take(10).collect::<Vec<_>>(), "number_of_differing_keys": dk.len(),
+                    "node": dk.iter().take(5).map(|k| (k.clone(), got.get(k).map(obs))).collect::<BTreeMap<_, _>>(), "truth": dk.iter().take(5).map(|k| (k.clone(), truth.get(k).map(obs))).collect::<BTreeMap<_, _>>()})));
+            }
+            match integ_recover(&store, &node).await {
+                Ok(again) if obs_kv(&again) == obs_kv(&got) => {}
+                other => {
+                    out.count(&format!("violation:{}", V_REPEAT));
+                    out.violation(i, V_REPEAT, detail(json!({"what": "second StreamingIntegration::recover into the same node", "error": other.as_ref().err(), "keys_after": other.as_ref().ok().map(|m| m.len())})));
+                }
+            }
+        }
+    }
+}
+
 async fn run_case(seed: u64, i: u64, verbose: bool, plain: bool, out: &mut Out) {
+    // every 400th index (7, 407, ...) is a batch-boundary layout: 4095 / 4096 / 4097 / 8192 / 8193 deltas
+    if i % 400 == 7 {
+        let n = [4095usize, 4096, 4097, 8192, 8193][((i / 400) % 5) as usize];
+        return run_big(seed, i, n, verbose, out).await;
+    }
     let mut rng = case_rng(seed, i);
-    let lay = gen_layout(&mut rng);
+    let mut lay = gen_layout(&mut rng);
+    // variant (own stream, other layouts unchanged): a checkpoint and NO segment to replay
+    // (30% of the layouts that have a checkpoint; half of them also without WAL)
+    {
+        let mut vr = case_rng(seed ^ 0x11C0_0E11, i);
+        if lay.ck.is_some() && lay.has_manifest && vr.gen_bool(0.3) {
+            lay.segs.clear();
+            for u in lay.updates.iter_mut() {
+                u.segs.clear();
+            }
+            lay.covered = true;
+            lay.ties = false;
+            if vr.gen_bool(0.5) {
+                lay.wal.clear();
+                for u in lay.updates.iter_mut() {
+                    u.in_wal = false;
+                }
+            }
+            out.count("layout:checkpoint-only(no segment to replay)");
+        }
+    }
     let manifest = lay.manifest();
     let objects = lay.objects();
     let store = build_store(&objects, if lay.has_manifest { Some(&manifest) } else { None }).await;
@@ -1010,6 +1165,15 @@ async fn run_case(seed: u64, i: u64, verbose: bool, plain: bool, out: &mut Out) 
     // node states
     let mut k_state: Option<KV> = None;
     let mut k_prod: Option<KV> = None;
+    if rec.is_err() {
+        // a layout recovery refuses must be refused at the integration entry point too
+        out.impl_checks += 1;
+        let node = ReplicatedShardedState::new(repl_config());
+        if let Ok(got) = integ_recover(&store, &node).await {
+            out.count(&format!("violation:{}", V_DAMAGE));
+            out.violation(i, V_DAMAGE, base(json!({"entry_point": "StreamingIntegration::recover", "node_state": kv_json(&got), "recover_error": rec.as_ref().err()})));
+        }
+    }
     if let Ok(r) = &rec {
         // -- node after recover()
         let expect_state = r.fold();
@@ -1039,7 +1203,35 @@ async fn run_case(seed: u64, i: u64, verbose: bool, plain: bool, out: &mut Out) 
         }
         // -- production path: the same, then the whole WAL
         let prod = ReplicatedShardedState::new(repl_config());
-        let (p0, from_node0) = apply_snapshot(&prod, r.ck.clone(), r.deltas.clone(), &expect_state).await;
+        // the first half of the production path goes through StreamingIntegration::recover
+        out.impl_checks += 2;
+        let (p0, from_node0) = match integ_recover(&store, &prod).await {
+            Ok(got) => {
+                let ok = obs_kv(&got) == obs_kv(&expect_state);
+                if verbose {
+                    println!("oracle (5) StreamingIntegration::recover leaves the node in the fold of recover(): {}", if ok { "ok" } else { "VIOLATED" });
+                }
+                if !ok {
+                    out.count(&format!("violation:{}", V_INTEG));
+                    out.violation(i, V_INTEG, base(json!({"node_after_integration_recover": kv_json(&got), "expected": kv_json(&expect_state), "differing_keys": diff_keys(&got, &expect_state),
+                        "deltas_to_replay": r.deltas.len(), "checkpoint_keys": r.ck.as_ref().map(|c| c.len())})));
+                }
+                // a second recovery into the same node changes nothing
+                match integ_recover(&store, &prod).await {
+                    Ok(again) if obs_kv(&again) == obs_kv(&got) => {}
+                    other => {
+                        out.count(&format!("violation:{}", V_REPEAT));
+                        out.violation(i, V_REPEAT, base(json!({"what": "second StreamingIntegration::recover into the same node", "first": kv_json(&got), "second": other.as_ref().ok().map(kv_json), "error": other.as_ref().err()})));
+                    }
+                }
+                (got, true)
+            }
+            Err(e) => {
+                out.count(&format!("violation:{}", V_INTEG));
+                out.violation(i, V_INTEG, base(json!({"error": e, "note": "RecoveryManager::recover succeeded on the same store"})));
+                (expect_state.clone(), false)
+            }
+        };
         let expect_prod = fold_recovered(&None, &wal_deltas, &p0);
         let (p1, from_node1) = if wal_deltas.is_empty() { (p0.clone(), from_node0) } else { apply_snapshot(&prod, None, wal_deltas.clone(), &expect_prod).await };
         if !(from_node0 && from_node1) {
@@ -1101,7 +1293,7 @@ async fn run_case(seed: u64, i: u64, verbose: bool, plain: bool, out: &mut Out) 
             }
             variants.push(("permuted", m));
         }
-        {
+        if !manifest.segments.is_empty() {
             let mut m = manifest.clone();
             let s = m.segments[rng.gen_range(0..m.segments.len())].clone();
             let at = rng.gen_range(0..=m.segments.len());
@@ -1300,7 +1492,7 @@ fn main() {
     let verbose = args.only.is_some();
     let plain = args.get("plain", 0) != 0;
     let mut out = Out::new(&args.out, "C11", args.shards, HEADER);
-    out.nontrivial_rule = "a case = 6-31 updates (SET with/without expiry, DEL, HSET, HDEL; one kind per key over keys k/j/m/h/g) issued by 3-4 real ShardReplicaStates with independent Lamport clocks (0, small, hundreds, far ahead; either one replica per key or any replica any key with occasional cross-delivery; 10% of the deltas occur twice), partitioned at random (15% into two parts) into a checkpoint (50%), 1-5 segments with increasing ids and a WAL written by the real WalRotator (several files); 35% of the cases put a slow replica mostly into the WAL and a fast one mostly into the segments, 25% are production-like (everything in the WAL, a prefix flushed in order to checkpoint and segments, half of them with synchronised clocks); variants: no manifest, missing/torn segment or checkpoint object, min_timestamp ties, listed segments with id <= last_segment_id; non-trivial = recovery returned Ok and at least two of checkpoint/segments/WAL are non-empty; distinct by layout text".into();
+    out.nontrivial_rule = "a case = 6-31 updates (SET with/without expiry, DEL, HSET, HDEL; one kind per key over keys k/j/m/h/g) issued by 3-4 real ShardReplicaStates with independent Lamport clocks (0, small, hundreds, far ahead; either one replica per key or any replica any key with occasional cross-delivery; 10% of the deltas occur twice), partitioned at random (15% into two parts) into a checkpoint (50%), 1-5 segments with increasing ids and a WAL written by the real WalRotator (several files); 35% of the cases put a slow replica mostly into the WAL and a fast one mostly into the segments, 25% are production-like (everything in the WAL, a prefix flushed in order to checkpoint and segments, half of them with synchronised clocks); variants: no manifest, missing/torn segment or checkpoint object, min_timestamp ties, listed segments with id <= last_segment_id; 30% of the layouts with a checkpoint have NO segment to replay (half of those no WAL either); every recovery that succeeds is repeated through StreamingIntegration::recover (the entry point server_persistent uses) into a real ReplicatedShardedState, twice; indices 7 mod 400 are batch-boundary layouts (oracle only, no Coq case): 4095 / 4096 / 4097 / 8192 / 8193 deltas to replay over 200-700 keys in 1-3 segments with or without a checkpoint, recovered through the integration entry point; non-trivial = recovery returned Ok and at least two of checkpoint/segments/WAL are non-empty; distinct by layout text".into();
     if !verbose {
         std::panic::set_hook(Box::new(|_| {}));
     }
